@@ -168,6 +168,7 @@ def exec_for(E, s):
     kname = spec.get('index', '_k')
     N = spec_iter.count
     env = E.st.env
+    E.run_hook(('loop_entry', ordinal), s)
     # lists grown by append inside the loop
     for name, ty in (spec.get('appends') or {}).items():
         v = env.get(name)
